@@ -226,12 +226,33 @@ func (r *Ramp) Metrics() pmetric.Metrics {
 					ex.SetIntValue(int64(id))
 					r.attrs(ex.FilteredAttributes(), id)
 				}
-			} else {
+			} else if id%4 == 1 {
 				dp := m.SetEmptyHistogram().DataPoints().AppendEmpty()
 				dp.SetCount(uint64(id))
 				dp.SetSum(float64(id))
 				dp.BucketCounts().FromRaw([]uint64{uint64(id), 1})
 				dp.ExplicitBounds().FromRaw([]float64{float64(id)})
+				r.attrs(dp.Attributes(), id)
+				ex := dp.Exemplars().AppendEmpty()
+				ex.SetDoubleValue(float64(id))
+				r.attrs(ex.FilteredAttributes(), id)
+			} else if id%8 == 3 {
+				dp := m.SetEmptyExponentialHistogram().DataPoints().AppendEmpty()
+				dp.SetCount(uint64(id))
+				dp.SetScale(int32(id % 5))
+				dp.Positive().SetOffset(int32(id % 7))
+				dp.Positive().BucketCounts().FromRaw([]uint64{1, uint64(id)})
+				r.attrs(dp.Attributes(), id)
+				ex := dp.Exemplars().AppendEmpty()
+				ex.SetIntValue(int64(id))
+				r.attrs(ex.FilteredAttributes(), id)
+			} else {
+				dp := m.SetEmptySummary().DataPoints().AppendEmpty()
+				dp.SetCount(uint64(id))
+				dp.SetSum(float64(id))
+				q := dp.QuantileValues().AppendEmpty()
+				q.SetQuantile(0.5)
+				q.SetValue(float64(id))
 				r.attrs(dp.Attributes(), id)
 			}
 		}
